@@ -125,7 +125,7 @@ class Tlc:
         self.states += r.distinct
         self.transitions += max(0, r.generated - 1)
         for a, (d, t) in r.coverage.items():
-            if a in ("Init", "EdgeDump", "InitDump"):
+            if a in ("Init", "EdgeDump", "InitDump", "HistBound"):
                 continue
             o = self.cov.get(a, (0, 0))
             self.cov[a] = (o[0] + d, o[1] + t)
@@ -191,6 +191,13 @@ def harness(cases, wd, tag):
                         args=[os.path.join(wd, "db_" + tag)])
 
 
+def harness_parallel(groups, wd, tag):
+    from concurrent.futures import ThreadPoolExecutor
+    with ThreadPoolExecutor(max(1, len(groups))) as ex:
+        futs = [ex.submit(harness, g, wd, "%s_%d" % (tag, n)) for n, g in enumerate(groups)]
+        return [f.result() for f in futs]
+
+
 def alias_observed(case, res):
     """the two aliased (URI, name) pairs were given the same raw identifier by the store"""
     rid = {}
@@ -248,8 +255,8 @@ def to_events(case, res):
 
 
 def make_cases(rng, paths, scope, tier, tag, rocks_every, counter):
-    """every path on the in-memory store; every `rocks_every`-th also ... no: each path on both stores, the
-    RocksDB copy only for a sample when rocks_every > 1 (the in-memory run is exhaustive regardless)."""
+    """each path on both stores; the RocksDB copy only for every `rocks_every`-th path when > 1 (the
+    in-memory run covers every path regardless)"""
     cases = []
     for n, p in enumerate(paths):
         for store in ("mem", "rocks"):
@@ -299,7 +306,7 @@ def run(tier, out):
         paths = g.covering_paths(extend=3 if quick else 6, rng=rng)
         paths += g.random_walks(60 if quick else 1500, 16 if quick else 30, rng)
         # the in-memory store sees every transition; RocksDB (dominated by database opens) a sample in quick
-        every = (6 if tag == "iso" else 2) if quick else 1
+        every = (5 if tag == "iso" else 2) if quick else 1
         all_cases += make_cases(rng, paths, scope, tier, tag, every, counter)
         if len(out.cov["samples"]) < 2:
             out.sample({"scope": dict(zip(("NA", "NI", "NK", "NV"), scope)),
@@ -309,13 +316,36 @@ def run(tier, out):
         paths = simulate(wd, scope, length, want, tag, core.seed())
         all_cases += make_cases(rng, paths, scope, tier, tag, 1, counter)
 
-    # ---- B1: execute on both stores, compare
+    # ---- B1: execute on both stores, compare.  RocksDB opens dominate (fsyncs): they are bounded by a budget
+    # (cases beyond it are dropped at random, the in-memory store still runs everything) and spread over 4
+    # harness processes, each with its own shared database.
+    budget = 1000 if quick else 9000
+    rocks = [c for c in all_cases if c["cfg"]["store"] == "rocks"]
+    rng.shuffle(rocks)
+    keep, dropped = set(), 0
+    for c in rocks:
+        cost = sum(1 for a in c["acts"] if a["k"] == "reopen") + (1 if c["cfg"]["db"] == "fresh" else 0)
+        if cost <= budget:
+            budget -= cost
+            keep.add(c["id"])
+        else:
+            dropped += 1
+    all_cases = [c for c in all_cases if c["cfg"]["store"] == "mem" or c["id"] in keep]
+    groups = [[c for c in all_cases if c["cfg"]["store"] == "mem"]]
+    rk = [c for c in all_cases if c["cfg"]["store"] == "rocks"]
+    groups += [rk[n::4] for n in range(4)]
+    groups = [g for g in groups if g]
     t0 = time.time()
-    results = harness(all_cases, wd, "b1")
-    judge(out, all_cases, results, st, batch_of=all_cases)
-    n_rocks = sum(1 for c in all_cases if c["cfg"]["store"] == "rocks")
-    core.log("[C13] B1: %d cases (%d RocksDB, %d in-memory; %d calls) in %.1fs: conform=%d rejected=%d known=%d" % (
-        len(all_cases), n_rocks, len(all_cases) - n_rocks, st["steps"], time.time() - t0, st["conform"], st["rejected"], st["known"]))
+    group_results = harness_parallel(groups, wd, "b1")
+    all_cases, results = [], []
+    for g, gr in zip(groups, group_results):
+        judge(out, g, gr, st, batch_of=g)
+        all_cases += g
+        results += gr
+    n_rocks = len(rk)
+    core.log("[C13] B1: %d cases (%d RocksDB, %d in-memory; %d calls; %d RocksDB cases over the open budget dropped) in %.1fs: "
+             "conform=%d rejected=%d known=%d" % (len(all_cases), n_rocks, len(all_cases) - n_rocks, st["steps"], dropped,
+                                                  time.time() - t0, st["conform"], st["rejected"], st["known"]))
     some = next((c for c in all_cases if c["cfg"]["store"] == "rocks" and c["cfg"]["naming"] != "plain"), all_cases[0])
     out.sample({"case_cfg": {k: (v if k not in ("keys", "vals") else [x[:40] for x in v]) for k, v in some["cfg"].items()},
                 "first_calls": some["acts"][:6]})
@@ -350,7 +380,7 @@ def run(tier, out):
     unvisited = sorted(a for a, (d, t) in tl.cov.items() if t == 0)
     out.add(states=tl.states, transitions=tl.transitions,
             traces_validated_against_impl=st["conform"] + ks["validated"],
-            replayed_cases=st["cases"], replayed_calls=st["steps"], rocksdb_cases=n_rocks,
+            replayed_cases=st["cases"], replayed_calls=st["steps"], rocksdb_cases=n_rocks, rocksdb_cases_dropped_over_open_budget=dropped,
             in_memory_cases=len(all_cases) - n_rocks, state_graph_edges_all_replayed=edges_total,
             known_finding_cases=st["known"], p_trace_executions=tv_cases, p_trace_events=tv_events,
             kills=ks["kills"], kills_with_call_in_flight=ks["midrun"], kill_trace_events=ks["events"],
@@ -437,20 +467,27 @@ def kill_runs(out, wd, rng, n, tier):
     paths = simulate(wd, scope, length, max(n, 20), "kill", core.seed() + 7)
     ks = {"kills": 0, "midrun": 0, "events": 0, "validated": 0}
     events, metas = [], []
-    full = None
     post_cases = []
     runs = []
+    plan = []
     for j in range(n):
         p = paths[j % len(paths)]
         cfg = concretise(rng, scope, "rocks", "fresh", 0, tier, None)
         cfg.pop("prealloc", None)
         if rng.random() < 0.3:
             cfg["prealloc"] = 254
-        case = {"id": "kill%d" % j, "cfg": cfg, "acts": p}
-        delay = None if full is None else rng.uniform(0, full * 1.05)
-        obs, done, db, elapsed, d = one_kill(wd, j, case, delay)
-        if full is None:
-            full = max(elapsed, 0.02)
+        plan.append(({"id": "kill%d" % j, "cfg": cfg, "acts": p}, rng.random()))
+    # the first run is let to finish (calibrates the window in which the others are killed)
+    first = one_kill(wd, 0, plan[0][0], None) if plan else None
+    full = max(first[3], 0.02) if first else 0
+    from concurrent.futures import ThreadPoolExecutor
+    with ThreadPoolExecutor(4) as ex:
+        futs = [ex.submit(one_kill, wd, j, plan[j][0], plan[j][1] * full * 1.05) for j in range(1, n)]
+        outcomes = [first] + [f.result() for f in futs]
+    for j, (obs, done, db, elapsed, d) in enumerate(outcomes if plan else []):
+        case = plan[j][0]
+        p = case["acts"]
+        cfg = case["cfg"]
         ks["kills"] += 1
         pend = None
         if len(obs) < len(p):
@@ -460,7 +497,11 @@ def kill_runs(out, wd, rng, n, tier):
         pcfg.pop("prealloc", None)
         post_cases.append({"id": "post%d" % j, "cfg": pcfg, "acts": dump_acts(scope)})
         runs.append((case, obs, pend, d))
-    post = harness(post_cases, wd, "post") if post_cases else []
+    pgroups = [g for g in (post_cases[x::4] for x in range(4)) if g]
+    pres = harness_parallel(pgroups, wd, "post")
+    post = [None] * len(post_cases)
+    for x, (g, gr) in enumerate(zip(pgroups, pres)):
+        post[x::4] = gr
     for (case, obs, pend, d), pc, pr in zip(runs, post_cases, post):
         ev = [{"k": "reset"}]
         for a, o in zip(case["acts"], obs):
